@@ -91,7 +91,9 @@ declare_class(
     fields={"fasta_fileandle": TRef("FastaFH"), "buffer_size": INT, "index": TDict(STR, TRef("FastaInfo")),
             "fasta_file": TRef("Path"), "fai_file": TRef("Path"), "agp_file": TRef("Path"),
             # ghost typestate: whether .index / .assembly have been filled (they start as None)
-            "g_index_loaded": BOOL, "g_assembly_loaded": BOOL},
+            "g_index_loaded": BOOL, "g_assembly_loaded": BOOL,
+            # ghost: the FASTA file has been indexed afresh by this object (run_indexing) rather than served from the cache
+            "g_rebuilt": BOOL},
 )
 # binary output stream of FastaStream: ghost column of the current line, residues written for the
 # current record, and the line length the writes are checked against
